@@ -1519,6 +1519,201 @@ fn sec_normalized(ctx: &mut Ctx, cal: &Calib) {
     }
 }
 
+/// a source that is generated while it is read: segments of literal octets and runs of a fill octet
+#[derive(Debug, Clone)]
+struct SegReader {
+    segs: Vec<(Vec<u8>, usize, u8)>,
+    at: usize,
+    off: usize,
+}
+
+impl SegReader {
+    fn new(segs: Vec<(Vec<u8>, usize, u8)>) -> Self {
+        SegReader { segs, at: 0, off: 0 }
+    }
+}
+
+impl Read for SegReader {
+    fn read(&mut self, buf: &mut [u8]) -> std::io::Result<usize> {
+        while self.at < self.segs.len() {
+            let (pre, run, fill) = &self.segs[self.at];
+            let total = pre.len() + *run;
+            if self.off >= total {
+                self.at += 1;
+                self.off = 0;
+                continue;
+            }
+            if self.off < pre.len() {
+                let k = buf.len().min(pre.len() - self.off);
+                buf[..k].copy_from_slice(&pre[self.off..self.off + k]);
+                self.off += k;
+                return Ok(k);
+            }
+            let k = buf.len().min(total - self.off);
+            buf[..k].fill(*fill);
+            self.off += k;
+            return Ok(k);
+        }
+        Ok(0)
+    }
+}
+
+/// packets the message reader skips (Padding, Marker, unassigned non-critical, experimental) of any
+/// size, in front of and behind the data packet of a streamed message: skipped means not kept
+fn sec_skipped(ctx: &mut Ctx, cal: &Calib) {
+    let site = "composed/message (parser.rs skipped packets, types.rs check_trailing_data) over a streamed source";
+    let sizes: Vec<usize> = if ctx.thorough() { vec![1 << 10, 1 << 16, 1 << 24, 1 << 28] } else { vec![1 << 10, 1 << 16, 1 << 24] };
+    let lit = literal_packet(b"hello");
+    for tag in [21u8, 10, 40, 60] {
+        for place in ["before", "after", "both"] {
+            for &n in &sizes {
+                // new-format header, five-octet length
+                let mut hdr = vec![0xC0 | tag, 0xFF];
+                hdr.extend_from_slice(&(n as u32).to_be_bytes());
+                let skipped = (hdr.clone(), n, if tag == 10 { b'P' } else { 0x55u8 });
+                let data = (lit.clone(), 0usize, 0u8);
+                let segs = match place {
+                    "before" => vec![skipped.clone(), data.clone()],
+                    "after" => vec![data.clone(), skipped.clone()],
+                    _ => vec![skipped.clone(), data.clone(), skipped.clone()],
+                };
+                let total: usize = segs.iter().map(|s| s.0.len() + s.1).sum();
+                let (res, s) = measure(|| {
+                    guarded(|| {
+                        let src = std::io::BufReader::with_capacity(8192, SegReader::new(segs.clone()));
+                        let (mut m, _) = Message::from_reader(src).map_err(|e| e.to_string())?;
+                        let mut out = Vec::new();
+                        m.read_to_end(&mut out).map_err(|e| e.to_string())?;
+                        Ok::<Vec<u8>, String>(out)
+                    })
+                });
+                let got = match &res {
+                    Ok(Ok(v)) => format!("ok:{}", String::from_utf8_lossy(v)),
+                    Ok(Err(e)) => format!("err:{e}"),
+                    Err(_) => "panic".into(),
+                };
+                let input = format!("skipped tag={tag} size={n} place={place} |input|={total}");
+                // a Marker packet has a fixed body: a long one may be refused, but not buffered
+                if tag != 10 {
+                    ctx.oracle("stream_returns_all", site, &input, got == "ok:hello", &got);
+                }
+                ctx.oracle("stream_bounded", site, &input, s.peak <= 1024 * 1024, &format!("bound=1048576 {got} {}", fmt_stats(&s)));
+                ctx.oracle("time_linear", site, &input, s.time <= cal.time_bound(total), &fmt_stats(&s));
+                ctx.stat(&format!("skipped:{}", got.split(':').next().unwrap_or("")));
+            }
+        }
+    }
+}
+
+/// a `BufRead` over a slice that counts how often it is asked (`fill_buf` / `read`) and fails after
+/// `limit` requests: "work bounded by the input supplied", measured in requests to the source
+#[derive(Debug)]
+struct CountingSource<'a> {
+    data: &'a [u8],
+    pos: usize,
+    /// octets handed out per `fill_buf` (0 = all that is left)
+    drip: usize,
+    polls: std::sync::Arc<std::sync::atomic::AtomicUsize>,
+    limit: usize,
+}
+
+impl CountingSource<'_> {
+    fn poll(&self) -> std::io::Result<()> {
+        let n = self.polls.fetch_add(1, std::sync::atomic::Ordering::Relaxed);
+        if n >= self.limit {
+            return Err(std::io::Error::other("poll limit reached"));
+        }
+        Ok(())
+    }
+}
+
+impl Read for CountingSource<'_> {
+    fn read(&mut self, buf: &mut [u8]) -> std::io::Result<usize> {
+        self.poll()?;
+        let mut k = buf.len().min(self.data.len() - self.pos);
+        if self.drip > 0 {
+            k = k.min(self.drip);
+        }
+        buf[..k].copy_from_slice(&self.data[self.pos..self.pos + k]);
+        self.pos += k;
+        Ok(k)
+    }
+}
+
+impl BufRead for CountingSource<'_> {
+    fn fill_buf(&mut self) -> std::io::Result<&[u8]> {
+        self.poll()?;
+        let rest = &self.data[self.pos..];
+        Ok(if self.drip > 0 { &rest[..rest.len().min(self.drip)] } else { rest })
+    }
+    fn consume(&mut self, amt: usize) {
+        self.pos = (self.pos + amt).min(self.data.len());
+    }
+}
+
+/// the entry points that look at the first octets to tell armored from binary input (and the plain
+/// ones), on every input of one and two octets and on short inputs around text markers: the number of
+/// requests made to the source is bounded by the input
+fn sec_polls(ctx: &mut Ctx) {
+    use pgp::composed::{CleartextSignedMessage, Deserializable, DetachedSignature, PublicOrSecret, SignedPublicKey, SignedSecretKey};
+    let site = "from_reader* / from_armor* entry points: requests to the source per input octet";
+    const LIMIT: usize = 20_000;
+    let entries: [&str; 8] = ["Message::from_reader", "Message::from_armor", "SignedPublicKey::from_reader_single_buf", "SignedSecretKey::from_reader_many_buf", "DetachedSignature::from_reader_single_buf", "PublicOrSecret::from_reader_many_buf", "CleartextSignedMessage::from_armor_buf", "SignedPublicKey::from_armor_single_buf"];
+    let mut inputs: Vec<Vec<u8>> = Vec::new();
+    for a in 0..=255u8 {
+        inputs.push(vec![a]);
+    }
+    let firsts: Vec<u8> = if ctx.thorough() { (0..=255u8).collect() } else { vec![0x00, 0x0A, 0x20, 0x2D, 0x7F, 0x80, 0x99, 0xC0, 0xC6, 0xCB, 0xD1, 0xEF, 0xFE, 0xFF] };
+    for &a in &firsts {
+        for b in 0..=255u8 {
+            inputs.push(vec![a, b]);
+        }
+    }
+    for pre in [&[0xEFu8, 0xBB][..], &[0xEF, 0xBB, 0xBF], &[0xFE, 0xFF], &[0xFF, 0xFE], b"-", b"--", b"-----", b"-----BEGIN", b"-----BEGIN PGP MESSAGE-----", b"-----BEGIN PGP MESSAGE-----\n", b"-----BEGIN PGP SIGNED MESSAGE-----\nHash: SHA256"] {
+        for c in [None, Some(0x0Au8), Some(0x2D), Some(0xBF), Some(0xEF)] {
+            let mut v = pre.to_vec();
+            v.extend(c);
+            inputs.push(v);
+        }
+    }
+    let mut worst: Vec<(usize, String)> = Vec::new();
+    let mut evals = 0u64;
+    for (ei, entry) in entries.iter().enumerate() {
+        let mut bad: Option<(String, usize)> = None;
+        let mut max_polls = 0usize;
+        for inp in &inputs {
+            for drip in [0usize, 1] {
+                let polls = std::sync::Arc::new(std::sync::atomic::AtomicUsize::new(0));
+                let src = CountingSource { data: &inp[..], pos: 0, drip, polls: polls.clone(), limit: LIMIT };
+                let r = guarded(|| match ei {
+                    0 => Message::from_reader(src).map(|(mut m, _)| { let mut v = Vec::new(); let _ = m.read_to_end(&mut v); }).is_ok(),
+                    1 => Message::from_armor(src).map(|(mut m, _)| { let mut v = Vec::new(); let _ = m.read_to_end(&mut v); }).is_ok(),
+                    2 => SignedPublicKey::from_reader_single_buf(src).is_ok(),
+                    3 => SignedSecretKey::from_reader_many_buf(src).map(|(it, _)| it.take(8).count()).is_ok(),
+                    4 => DetachedSignature::from_reader_single_buf(src).is_ok(),
+                    5 => PublicOrSecret::from_reader_many_buf(src).map(|(it, _)| it.take(8).count()).is_ok(),
+                    6 => CleartextSignedMessage::from_armor_buf(src, Default::default()).is_ok(),
+                    _ => SignedPublicKey::from_armor_single_buf(src).is_ok(),
+                });
+                let n = polls.load(std::sync::atomic::Ordering::Relaxed);
+                max_polls = max_polls.max(n);
+                evals += 1;
+                let bound = 64 + 16 * inp.len();
+                if (n > bound || r.is_err()) && bad.is_none() {
+                    bad = Some((format!("entry={entry} input={} drip={drip}", hx(inp)), n));
+                }
+            }
+        }
+        match bad {
+            Some((input, n)) => ctx.oracle("work_bounded_by_input", site, &input, false, &format!("{n} requests to the source (limit of the harness {LIMIT}; bound 64 + 16 per octet), or a panic")),
+            None => ctx.oracle("work_bounded_by_input", site, &format!("entry={entry}: {} inputs of 1..50 octets x (whole slice | one octet per fill_buf)", inputs.len()), true, &format!("max requests {max_polls}")),
+        }
+        worst.push((max_polls, entry.to_string()));
+    }
+    ctx.stat_n("polls:evaluations", evals);
+    ctx.note(&format!("polls: max requests per entry point = {worst:?}"));
+}
+
 /// cleartext signature framework: reading a document is linear in its size, whatever the number and
 /// length of its lines (the body reader looks for the signature block after every line)
 fn sec_cleartext(ctx: &mut Ctx, cal: &Calib) {
@@ -1582,4 +1777,6 @@ pub fn run(ctx: &mut Ctx) {
     if want("armor") { sec_armor(ctx, &cal); }
     if want("norm") { sec_normalized(ctx, &cal); }
     if want("cleartext") { sec_cleartext(ctx, &cal); }
+    if want("skipped") { sec_skipped(ctx, &cal); }
+    if want("polls") { sec_polls(ctx); }
 }
